@@ -941,8 +941,8 @@ def _fold_loop(mod, fn, acc):
                 env[nm] = st.value
         elif isinstance(st, ast.For) and isinstance(st.target, ast.Name):
             loop = st
-        elif isinstance(st, ast.If) and all(isinstance(x, ast.Raise) for x in st.body) and not st.orelse:
-            continue
+        elif isinstance(st, ast.If) and all(isinstance(x, (ast.Raise, ast.Return)) for x in st.body) and not st.orelse:
+            continue            # an early exit for a special case (judged by its own rule), not part of the fold
         elif isinstance(st, ast.Return):
             continue
         else:
@@ -951,12 +951,16 @@ def _fold_loop(mod, fn, acc):
         return None
 
     def res(e, depth=0):
-        class R(ast.NodeTransformer):
-            def visit_Name(self, n):
-                if isinstance(n.ctx, ast.Load) and n.id in env and depth < 4:
-                    return res(env[n.id], depth + 1)
-                return n
-        return R().visit(ast.parse(unparse(e), mode="eval").body)
+        # only the iterator itself is followed through plain aliases (it = outputs ; outputs = (..)): names *inside* the
+        # source expression keep their spelling (the rules name them)
+        while isinstance(e, ast.Name) and e.id in env and depth < 4:
+            e = env[e.id]
+            depth += 1
+        if isinstance(e, ast.Call) and unparse(e.func) == "iter" and len(e.args) == 1 and isinstance(e.args[0], ast.Name) \
+                and e.args[0].id in env:
+            inner = res(e.args[0], depth + 1)
+            return ast.parse("iter(%s)" % unparse(inner), mode="eval").body
+        return ast.parse(unparse(e), mode="eval").body
     # acc = next(it)
     fv = first.value
     if not (isinstance(fv, ast.Call) and unparse(fv.func) == "next" and len(fv.args) == 1 and isinstance(fv.args[0], ast.Name)):
